@@ -31,12 +31,13 @@ SCRATCH = "/tmp/mut"
 PRISTINE = "/tmp/mut-pristine"  # git archive of the pinned commit: /repo's working tree is never read
 
 
-def pin():
-    """Exports /repo's HEAD commit (not its working tree, which seeded-defect runs patch) to PRISTINE."""
+def pin(dest=None):
+    """Exports /repo's HEAD commit (not its working tree, which seeded-defect runs patch) to dest (default PRISTINE)."""
+    dest = dest or PRISTINE
     head = subprocess.run(["git", "-C", "/repo", "rev-parse", "HEAD"], stdout=subprocess.PIPE, text=True, check=True).stdout.strip()
-    shutil.rmtree(PRISTINE, ignore_errors=True)
-    os.makedirs(PRISTINE)
-    subprocess.run("git -C /repo archive %s | tar -x -C %s" % (head, PRISTINE), shell=True, check=True)
+    shutil.rmtree(dest, ignore_errors=True)
+    os.makedirs(dest)
+    subprocess.run("git -C /repo archive %s | tar -x -C %s" % (head, dest), shell=True, check=True)
     return head
 OUT = os.path.join(ROOT, "mutation", "results.jsonl")
 
